@@ -1046,3 +1046,61 @@ func (c *Ctx) regexpSourceOf(v *types.Var) (string, bool) {
 	}
 	return "", false
 }
+
+// ---- R-SORT-TOTAL (C01) ------------------------------------------------------------------------
+
+// ruleSortTotal: the entries of a Go map reach the JSON renderer in the order a comparator gives
+// them. The comparator's first stage compares the keys' display strings, which is not injective
+// (multi-key {"a b","c"} vs {"a","b c"}; union "1" vs 1). For the output to be a function of the
+// tree, the comparator must go on to a second stage over an injective rendering of the key itself
+// whenever the first stage says "equal".
+func ruleSortTotal(c *Ctx, r *Report) {
+	r.Rule("R-SORT-TOTAL", "the comparator ygot.mapJSON sorts map entries with is total on distinct keys: after the comparison of the keys' display strings it compares an injective rendering (%#v) of the key values; a single-stage comparison leaves entries with equal display strings in map-iteration order and the same tree renders to different JSON", 1)
+	f := c.MustFunc(r, "ygot", "mapJSON")
+	if f == nil {
+		return
+	}
+	info := f.Info()
+	var cmpLit *ast.FuncLit
+	var at token.Pos
+	ast.Inspect(f.Decl.Body, func(x ast.Node) bool {
+		call, ok := x.(*ast.CallExpr)
+		if !ok {
+			return true
+		}
+		switch FullName(Callee(info, call)) {
+		case "slices.SortFunc", "slices.SortStableFunc", "sort.Slice", "sort.SliceStable":
+			if len(call.Args) == 2 {
+				if fl, ok := call.Args[1].(*ast.FuncLit); ok {
+					cmpLit, at = fl, call.Pos()
+				}
+			}
+		}
+		return true
+	})
+	if cmpLit == nil {
+		r.Bad("ygot.mapJSON:comparator", c.Pos(f.Decl.Pos()), "mapJSON no longer sorts the entries collected from the map with a comparator literal: their order is the order of map iteration (or the rule does not recognise how they are ordered)")
+		return
+	}
+	stages, injective := 0, false
+	ast.Inspect(cmpLit.Body, func(x ast.Node) bool {
+		call, ok := x.(*ast.CallExpr)
+		if !ok {
+			return true
+		}
+		switch FullName(Callee(info, call)) {
+		case "strings.Compare", "cmp.Compare":
+			stages++
+			for _, a := range call.Args {
+				if sp, ok := ast.Unparen(a).(*ast.CallExpr); ok && FullName(Callee(info, sp)) == "fmt.Sprintf" && len(sp.Args) == 2 {
+					if v, isC := ConstOf(info, sp.Args[0]); isC && strings.Contains(v, "%#v") {
+						injective = true
+					}
+				}
+			}
+		}
+		return true
+	})
+	r.Check(stages >= 2 && injective, "ygot.mapJSON:comparator", c.Pos(at), "two-stage comparator with an injective tie-break on the key",
+		"mapJSON orders map entries by their keys' display strings only: two keys with the same display string ({\"a b\",\"c\"} and {\"a\",\"b c\"}, or union keys \"1\" and 1) are rendered in map-iteration order, so re-rendering is not byte-identical")
+}
